@@ -114,7 +114,9 @@ def rule_c(prog, rep):
     n = 0
     for name in ('ndelete', 'ndelete_child_matches'):
         f = crate.fn(f'{STORE}::{name}')
-        ls = [(nd, anc) for nd, anc in crate.walk_fn(f) if nd.get('k') == 'call' and short(callee(nd)) == 'ls_owned']
+        trav_ex = {f'{STORE}::{x}' for x in ('ndelete', 'ndelete_matches', 'ndelete_child_matches', 'ncollect_matches')} | \
+            {g.path for g in crate.top_fns() if g.path.startswith('store::Node::<K, V>::')}
+        ls = [(nd, anc) for nd, anc, owner in crate.walk_fn_deep(f, exclude=trav_ex) if nd.get('k') == 'call' and short(callee(nd)) == 'ls_owned']
         good = False
         for nd, anc in ls:
             for it in guards(anc + (nd,)):
